@@ -306,10 +306,13 @@ ParsesBack(t, cpp) == LET ts == PrintExpr(t, cpp)  r == Parse(ts, cpp) IN r.t = 
 (* used: every operator of the table occurs in profile "full".             *)
 (***************************************************************************)
 Profile(name) ==
-  CASE name = "full" -> [vars |-> {"a", "b", "c"}, bin |-> ArithOps, asg |-> AsgOps, un |-> {"+", "-", "!", "~"}, inc |-> {"++", "--"}]
-    [] name = "rep"  -> [vars |-> {"a", "b"}, bin |-> {"*", "+", "-", "<<", "<", ">", "==", "&", "^", "|", "&&", "||"}, asg |-> {"=", "+="},
+  CASE name = "full" -> [vars |-> {"a", "b", "c"}, lits |-> {"1"}, bin |-> ArithOps, asg |-> AsgOps, un |-> {"+", "-", "!", "~"}, inc |-> {"++", "--"}]
+    [] name = "rep"  -> [vars |-> {"a", "b"}, lits |-> {"1"}, bin |-> {"*", "+", "-", "<<", "<", ">", "==", "&", "^", "|", "&&", "||"}, asg |-> {"=", "+="},
                          un |-> {"-", "!"}, inc |-> {"++"}]
-    [] name = "rep1" -> [vars |-> {"a"}, bin |-> {"*", "-", "<<", "<", "==", "&", "^", "|", "&&", "||"}, asg |-> {"="},
+    [] name = "rep1" -> [vars |-> {"a"}, lits |-> {"1"}, bin |-> {"*", "-", "<<", "<", "==", "&", "^", "|", "&&", "||"}, asg |-> {"="},
+                         un |-> {"-", "!"}, inc |-> {"++"}]
+    \* one operator per precedence level, one variable, no literal: small enough for all trees with three operators
+    [] name = "rep0" -> [vars |-> {"a"}, lits |-> {}, bin |-> {"*", "-", "<<", "<", "==", "&", "^", "|", "&&", "||"}, asg |-> {"="},
                          un |-> {"-", "!"}, inc |-> {"++"}]
 
 \* TR(pf, sort, n, root): the trees of that sort with exactly n operators whose ROOT production belongs to one of the
@@ -336,7 +339,7 @@ TR(pf, sort, n, root) ==
             \cup (IF On("sub") THEN {Sub(p[1], p[2]) : p \in Pairs(Ptrs, Ints, n - 1)} ELSE {})
             \cup (IF n = 1 /\ On("mem") THEN {Bin(".", Leaf("s"), Leaf("m")), Bin("->", Leaf("q"), Leaf("m"))} ELSE {})
   ELSE IF sort = "I" THEN
-       IF n = 0 THEN (IF On("leaf") THEN {Leaf("1")} ELSE {})
+       IF n = 0 THEN (IF On("leaf") THEN {Leaf(v) : v \in P.lits} ELSE {})
        ELSE UNION {IF On("bin:" \o op) THEN {Bin(op, p[1], p[2]) : p \in Pairs(Ints, Ints, n - 1)} ELSE {} : op \in P.bin}
             \cup (IF On("pcmp") THEN {Bin(op, p[1], p[2]) : op \in {"==", "<"} \cap P.bin, p \in Pairs(Ptrs, Ptrs, n - 1)} ELSE {})
             \cup (IF On("un") THEN {Pre(op, x) : op \in P.un, x \in Ints(n - 1)} ELSE {})
@@ -407,7 +410,7 @@ UnaryChains(pf) ==
       XP == {t \in T(pf, "P", 1) : IsUnaryLevel(t)}          \* & a   ++ p   p ++
   IN  {Pre(op, x) : op \in P.un, x \in XI} \cup {Pre(op, x) : op \in P.inc, x \in XL} \cup {Post(op, x) : op \in P.inc, x \in XL}
       \cup {Cast("int", x) : x \in XI} \cup {SzE(x) : x \in XI \cup XP}
-      \cup {Pre("*", x) : x \in XP} \cup {Pre("&", x) : x \in XL} \cup {Sub(x, Leaf("1")) : x \in XP}
+      \cup {Pre("*", x) : x \in XP} \cup {Pre("&", x) : x \in XL} \cup {Sub(x, Leaf("a")) : x \in XP}
       \cup {Call(Leaf("f"), <<x>>) : x \in XI}
 
 \* the number of operator nodes of a tree (for the evidence)
